@@ -1,5 +1,6 @@
 mod kernel;
 mod kv;
+mod tlvx;
 mod net;
 mod props;
 mod runner;
